@@ -54,6 +54,14 @@ POLICY = """
 """
 
 
+class NotEnforced(client.Timeout):
+    """pending_fd_timeout + watchdog passed and the stalling connection is still there."""
+
+    def __init__(self, key, what):
+        client.Timeout.__init__(self, what)
+        self.key, self.what = key, what
+
+
 class Spec(object):
     """One message to be transmitted."""
 
@@ -328,7 +336,9 @@ class History(object):
             out.append([data[prev:c], []])
             prev = c
         if spec.placement == "late":
-            out[rng.randint(1, len(out) - 1)][1] = fds
+            # with a short pending_fd_timeout nothing may follow the descriptors in a separate write: the time between
+            # two of our writes is not under our control on a loaded machine
+            out[len(out) - 1 if self.timeout_ms is not None else rng.randint(1, len(out) - 1)][1] = fds
         else:
             out[0][1] = fds
         return [(d, f) for d, f in out]
@@ -449,6 +459,9 @@ class History(object):
             out = self.model.route(ms, spec.mtype, spec.dest, spec.h, size, bool(spec.malformed),
                                    requested_reply=(spec.mtype == 2))
         ambiguous = out.kind == "ambiguous" or spec.then_close
+        # With a short pending_fd_timeout a sender that now has unclaimed descriptors at the bus may be dropped at any
+        # moment from now on (how long our own barriers take is not under our control): both outcomes are accepted.
+        may_time_out = self.timeout_ms is not None and bool(ms.q)
         # class used in violation keys: the outcome class (few, stable), not the full description of the step
         kcls = "sender-closes" if spec.then_close else out.cls
         if spec.relation in ("less", "none-but-attached"):
@@ -530,7 +543,12 @@ class History(object):
             self.check_held(cls)
             return out.cls
 
-        if observed_disc:
+        if observed_disc and may_time_out:
+            self.step("  %s was dropped while this step was being settled (descriptors pending, pending_fd_timeout=%d ms)"
+                      % (S.unique.decode(), self.timeout_ms))
+            self.part.count("pending-timeouts-enforced")
+            self.part.count("pending-timeouts-during-settle")
+        elif observed_disc:
             if legal:
                 self.violation("sender-dropped:%s" % kcls, "the bus disconnected %s although its message was well-formed, "
                                "announced exactly the attached descriptors and respected every limit" % S.unique.decode())
@@ -569,7 +587,8 @@ class History(object):
         if out.kind == "deliver" and spec.expects_reply:
             mr = out.recipients[0]
             R = self.clients.get(mr.unique)
-            if R is not None and mr.unique not in waiting and R.unique in got and S.unique in self.clients:
+            if R is not None and mr.unique not in waiting and R.unique in got and S.unique in self.clients \
+                    and not may_time_out:
                 self.op_reply(R, S, serial)
         return out.cls
 
@@ -720,16 +739,15 @@ class History(object):
         t0 = time.time()
         n = len(self.mc(S).q)
         self.step("  %s has %d descriptor(s) pending (%s); waiting for pending_fd_timeout=%d ms" % (self.name_of(S), n, why, self.timeout_ms))
-        gone = S.wait_eof(timeout=self.timeout_ms / 1000.0 + 10.0)
+        gone = S.wait_eof(timeout=self.timeout_ms / 1000.0 + client.WATCHDOG)
         dt = time.time() - t0
         self.part.count("pending-timeouts-awaited")
         self.part.sig("pending-timeout", why, min(n, 3))
         if not gone:
-            self.violation("pending-timeout-not-enforced:%s" % why,
-                           "connection with %d unclaimed descriptors still connected %.1f s after they were sent "
-                           "(pending_fd_timeout=%d ms)" % (n, dt, self.timeout_ms))
-            self.close_client(S, "timeout not enforced")
-            return
+            # a watchdog like any other: inconclusive first, the history is re-run alone, only a repeat is reported
+            raise NotEnforced("pending-timeout-not-enforced:%s" % why,
+                              "connection with %d unclaimed descriptors still connected %.1f s after they were sent "
+                              "(pending_fd_timeout=%d ms)" % (n, dt, self.timeout_ms))
         if dt * 1000.0 < self.timeout_ms * 0.5:
             self.part.count("pending-timeout-early")
         self.await_gone(S.unique)
@@ -820,6 +838,13 @@ class History(object):
         ms = self.mc(S)
         spec, serial, data, rest, pre, legal, candidates = ms.partial
         r = rng.random()
+        # The addressee may have stopped reading since the first part was written.  A completed message that has to
+        # wait inside the bus counts against the sender's max_incoming_unix_fds; at the limit the bus (legitimately)
+        # stops reading from the sender, whose barrier would then never be answered - abandon instead of resuming.
+        tgt = self.model.owner(spec.dest) if spec.dest else None
+        if tgt is not None and tgt in self.not_reading() and not self.budget_ok(S, spec.h or 0, [tgt]):
+            r = 1.0
+            self.part.count("resume-avoided-sender-would-hit-max-incoming")
         if r < 0.6:
             ms.partial = None
             cls = self.transmit(S, spec, partial_resume=(serial, data, rest, pre, legal, candidates))
@@ -1119,8 +1144,11 @@ def run_history(b, rundir, seed, shard, i, part):
                 h2.cleanup()
             except Exception:
                 pass
-            part.violation("%s:hang:%s" % (PROP, type(e2).__name__), "history hung twice (bus alive=%s): %s" % (alive, h2.cur_cls),
-                           h2.witness())
+            if isinstance(e2, NotEnforced) and isinstance(e, NotEnforced):
+                part.violation("%s:%s" % (PROP, e2.key), e2.what + " (twice)", h2.witness())
+            else:
+                part.violation("%s:hang:%s" % (PROP, type(e2).__name__), "history hung twice (bus alive=%s): %s" % (alive, h2.cur_cls),
+                               h2.witness())
         finally:
             try:
                 h2.cleanup()
